@@ -449,14 +449,14 @@ satisfies every clause and its proof window starts before the v2 hard fork. -/
 theorem rpcForm2_accept_safe {rh expUH h : Nat} {fc : Rev} {st : Settings} {rec : Recorded}
     (hh : rpcForm2 rh fc expUH h st sg = .ok rec) :
     fc.wStart < rh ∧ (∀ cl ∈ contractClauses fc h st 0 rec.locked, cl.2 = true) ∧ formRecorded fc st = some rec := by
-  unfold rpcForm2 at hh
+  unfold rpcForm2 rpcForm2Body at hh
   res_ok' at hh
   obtain ⟨_, hrh, c, hc, _, rfl⟩ := hh
   have := formation_accept_safe hc
   exact ⟨hrh, this.1, this.2.1⟩
 
 theorem rpcForm2_no_panic (rh expUH h : Nat) (fc : Rev) (st : Settings) : NoPanic (rpcForm2 rh fc expUH h st sg) := by
-  unfold rpcForm2
+  unfold rpcForm2 rpcForm2Body
   refine NoPanic.bind (check_noPanic _ _) fun _ _ => ?_
   refine NoPanic.bind (check_noPanic _ _) fun _ _ => ?_
   refine NoPanic.bind (formation_no_panic _ _ _ _) fun _ _ => ?_
@@ -473,7 +473,7 @@ theorem rpcRenew2_accept_safe {fx : Bool} {rh expUH h : Nat} {e r : Rev} {fv : L
     (∀ cl ∈ contractClauses r h st (baseCost st.storagePrice e r) rec.locked, cl.2 = true) ∧
     renew2Recorded e r fv st = some rec ∧
     r.filesize = e.filesize ∧ r.root = e.root ∧ e.wEnd ≤ r.wEnd := by
-  unfold rpcRenew2 at hh
+  unfold rpcRenew2 rpcRenew2Body at hh
   res_ok' at hh
   obtain ⟨_, _, hrh, clearing, hclr, evr, _, fp, hfp, ⟨b1, b2⟩, hbase, ⟨a, b, c⟩, hval, storage, ⟨hsub, rfl⟩, _, _, tot, _, rfl⟩ := hh
   obtain ⟨rfl, rfl⟩ := renewBase_ok hbase
@@ -503,7 +503,7 @@ theorem rpcRenew2_accept_safe {fx : Bool} {rh expUH h : Nat} {e r : Rev} {fv : L
 theorem rpcRenew2_window_partial {fx : Bool} {rh expUH h : Nat} {e r : Rev} {fv : List Nat} {st : Settings} {rec : Recorded}
     (hh : rpcRenew2 fx rh e r fv expUH h st sg = .ok rec) (hn : h + st.maxDuration + st.windowSize < U64) :
     h + st.windowSize ≤ r.wStart ∧ r.wStart ≤ h + st.maxDuration ∧ r.wStart + st.windowSize ≤ r.wEnd := by
-  unfold rpcRenew2 at hh
+  unfold rpcRenew2 rpcRenew2Body at hh
   res_ok' at hh
   obtain ⟨_, _, hrh, clearing, hclr, evr, _, fp, hfp, ⟨b1, b2⟩, hbase, ⟨a, b, c⟩, hval, _⟩ := hh
   exact renewal2_window_partial hval hn
@@ -548,13 +548,13 @@ theorem rpcRenew3_clearing_safe {fx : Bool} {rh expUH h : Nat} {e k r : Rev} {st
 the renter's signatures over the revisions verify -/
 theorem rpcForm2_needs_signature {rh expUH h : Nat} {fc : Rev} {st : Settings} {rec : Recorded}
     (hh : rpcForm2 rh fc expUH h st sg = .ok rec) : sg.contract = true := by
-  unfold rpcForm2 at hh
+  unfold rpcForm2 rpcForm2Body at hh
   res_ok' at hh
   obtain ⟨_, hrh, c, hc, hs, rfl⟩ := hh
   simpa using hs
 theorem rpcRenew2_needs_signatures {fx : Bool} {rh expUH h : Nat} {e r : Rev} {fv : List Nat} {st : Settings} {rec : Recorded}
     (hh : rpcRenew2 fx rh e r fv expUH h st sg = .ok rec) : sg.clearing = true ∧ sg.contract = true := by
-  unfold rpcRenew2 at hh
+  unfold rpcRenew2 rpcRenew2Body at hh
   res_ok' at hh
   obtain ⟨_, _, hrh, clearing, hclr, evr, _, fp, hfp, ⟨b1, b2⟩, hbase, ⟨a, b, c⟩, hval, storage, _, h1, h2, _⟩ := hh
   exact ⟨by simpa using h1, by simpa using h2⟩
@@ -584,7 +584,7 @@ theorem rpcRenew2_noPanic {fx : Bool} {rh expUH h : Nat} {e r : Rev} {fv : List 
     (H : fx = true ∨ (2 ≤ e.valid.length ∧ BaseSafe st.contractPrice st.storagePrice st.collateral e r ∧
       st.contractPrice + baseCost st.storagePrice e r + baseCost st.collateral e r < C128)) :
     NoPanic (rpcRenew2 fx rh e r fv expUH h st sg) := by
-  unfold rpcRenew2
+  unfold rpcRenew2 rpcRenew2Body
   refine NoPanic.bind (check_noPanic _ _) fun _ _ => ?_
   refine NoPanic.bind (check_noPanic _ _) fun _ _ => ?_
   refine NoPanic.bind (check_noPanic _ _) fun _ _ => ?_
@@ -686,6 +686,110 @@ example : rpcRenew3 false U64 exExisting exClearing exRenewal 10 1000 { exSettin
 /-- an accepted RHP2 renewal and what is recorded for it -/
 example : rpcRenew2 false U64 exExisting exRenewal [4999, 701] 10 1000 { exSettings with maxCollateral := 2000000 } ⟨true, true⟩
     = .ok { locked := 1001528, rpcRevenue := 200, storageRevenue := 2998272, risked := 0, clearingRPC := 1 } := by
+  decide +kernel
+
+/-! ### the chain moves while an RPC is in flight (`rpcForm2At`, `rpcRenew2At`)
+
+`h1`: height when the RPC id arrived, `h2 ≥ h1`: the tip once the request body has been read.  The handlers hand
+`sh.chain.Tip().Height` (= `h2`) to the validators, so an accepted contract satisfies the window clauses for the
+height in force when the host decides. -/
+
+theorem rpcForm2At_same (b : Bool) (rh expUH h : Nat) (fc : Rev) (st : Settings) :
+    rpcForm2At b rh fc expUH h h st sg = rpcForm2 rh fc expUH h st sg := by
+  cases b <;> rfl
+
+theorem rpcRenew2At_same (fx b : Bool) (rh expUH h : Nat) (e r : Rev) (fv : List Nat) (st : Settings) :
+    rpcRenew2At fx b rh e r fv expUH h h st sg = rpcRenew2 fx rh e r fv expUH h st sg := by
+  cases b <;> rfl
+
+theorem rpcForm2Body_ok {rh expUH hv : Nat} {fc : Rev} {st : Settings} {rec : Recorded}
+    (hh : rpcForm2Body rh fc expUH hv st sg = .ok rec) :
+    fc.wStart < rh ∧ (∀ cl ∈ contractClauses fc hv st 0 rec.locked, cl.2 = true) ∧ formRecorded fc st = some rec := by
+  unfold rpcForm2Body at hh
+  res_ok' at hh
+  obtain ⟨hrh, c, hc, _, rfl⟩ := hh
+  have := formation_accept_safe hc
+  exact ⟨hrh, this.1, this.2.1⟩
+
+/-- **rpcFormContract validates against the CURRENT height**: whatever the height was when the RPC id arrived,
+an accepted formation satisfies every clause — in particular the window clauses — for the tip `h2` at the time
+the request was validated. -/
+theorem rpcForm2_uses_current_height {rh expUH h1 h2 : Nat} {fc : Rev} {st : Settings} {rec : Recorded}
+    (hh : rpcForm2At true rh fc expUH h1 h2 st sg = .ok rec) :
+    fc.wStart < rh ∧ (∀ cl ∈ contractClauses fc h2 st 0 rec.locked, cl.2 = true) ∧ formRecorded fc st = some rec := by
+  unfold rpcForm2At at hh
+  res_ok' at hh
+  exact rpcForm2Body_ok (by simpa using hh.2)
+
+theorem rpcForm2_window_current_partial {rh expUH h1 h2 : Nat} {fc : Rev} {st : Settings} {rec : Recorded}
+    (hh : rpcForm2At true rh fc expUH h1 h2 st sg = .ok rec) (hn : h2 + st.maxDuration + st.windowSize < U64) :
+    h2 + st.windowSize ≤ fc.wStart ∧ fc.wStart ≤ h2 + st.maxDuration ∧ fc.wStart + st.windowSize ≤ fc.wEnd := by
+  unfold rpcForm2At rpcForm2Body at hh
+  res_ok' at hh
+  obtain ⟨_, _, c, hc, _⟩ := hh
+  exact formation_window_partial (by simpa using hc) hn
+
+theorem rpcRenew2Body_ok {fx : Bool} {rh expUH hv : Nat} {e r : Rev} {fv : List Nat} {st : Settings} {rec : Recorded}
+    (hh : rpcRenew2Body fx rh e r fv expUH hv st sg = .ok rec) :
+    r.wStart < rh ∧ (∀ cl ∈ contractClauses r hv st (baseCost st.storagePrice e r) rec.locked, cl.2 = true) ∧
+    renew2Recorded e r fv st = some rec := by
+  -- the body with the rpcLoop check in front is `rpcRenew2` at a height below the require height … or not; prove directly
+  unfold rpcRenew2Body at hh
+  res_ok' at hh
+  obtain ⟨_, hrh, clearing, hclr, evr, _, fp, hfp, ⟨b1, b2⟩, hbase, ⟨a, b, c⟩, hval, storage, ⟨hsub, rfl⟩, _, _, tot, _, rfl⟩ := hh
+  obtain ⟨rfl, rfl⟩ := renewBase_ok hbase
+  obtain ⟨vh, mh, void, sf, hle, hburn, hvoid, hb, hmc, rfl, rfl, rfl⟩ := validateRenewal2_ok hval
+  obtain ⟨x, y, r1, r2, hv', hm⟩ := sf.shape
+  obtain ⟨cvh, fvh, hcvh, hfvh, rfl, _⟩ := validateClearing_returns hfp
+  have hc := clearingRevision_ok hclr
+  refine ⟨hrh, contractClauses_of_facts sf.w1 sf.w2 sf.w3 hv' hm sf.a1 sf.a2 sf.a3 hmc hb, ?_⟩
+  have hfv : ∃ f0 rest, fv = f0 :: fvh :: rest := by
+    have h6 := hc.2.2.2.2.2.1
+    cases hcv : clearing.valid with
+    | nil => rw [hcv] at hfvh; simp [hostVal] at hfvh
+    | cons o0 t =>
+      cases t with
+      | nil => rw [hcv] at hfvh; simp [hostVal] at hfvh
+      | cons o1 t' =>
+        rw [hcv] at hfvh h6
+        simp [hostVal] at hfvh
+        exact ⟨o0.val, vals t', by rw [← h6, ← hfvh]; simp⟩
+  obtain ⟨f0, rest, rfl⟩ := hfv
+  simp only [renew2Recorded, hv', hm, hostVal_cons, hcvh]
+  congr 1
+  simp only [Recorded.mk.injEq]
+  refine ⟨by trivial, by trivial, by omega, by trivial, by trivial⟩
+
+/-- **rpcRenewAndClearContract validates against the CURRENT height** -/
+theorem rpcRenew2_uses_current_height {fx : Bool} {rh expUH h1 h2 : Nat} {e r : Rev} {fv : List Nat} {st : Settings}
+    {rec : Recorded} (hh : rpcRenew2At fx true rh e r fv expUH h1 h2 st sg = .ok rec) :
+    r.wStart < rh ∧ (∀ cl ∈ contractClauses r h2 st (baseCost st.storagePrice e r) rec.locked, cl.2 = true) ∧
+    renew2Recorded e r fv st = some rec := by
+  unfold rpcRenew2At at hh
+  res_ok' at hh
+  exact rpcRenew2Body_ok (by simpa using hh.2)
+
+/-- the stale-height shape (seed C12-e): the validator is handed the height captured when the RPC id arrived.
+One block connects while the host waits for the request body (1000 -> 1001): a formation whose window starts
+at 1144 = 1000 + 144 is accepted although 1144 < 1001 + 144; the code as it is refuses it. -/
+theorem stale_height_witness :
+    rpcForm2At false U64 exForm 10 1000 1001 exSettings ⟨true, true⟩
+      = .ok { locked := 500, rpcRevenue := 200, storageRevenue := 0, risked := 0, clearingRPC := 0 } ∧
+    ("window_start_not_too_soon", false) ∈ contractClauses exForm 1001 exSettings 0 500 ∧
+    rpcForm2At true U64 exForm 10 1000 1001 exSettings ⟨true, true⟩ = .reject .tooSoon ∧
+    -- the same for a renewal
+    (rpcRenew2At false false U64 exExisting exRenewal [4999, 701] 10 1000 1001 { exSettings with maxCollateral := 2000000 } ⟨true, true⟩).isOk = true ∧
+    rpcRenew2At false true U64 exExisting exRenewal [4999, 701] 10 1000 1001 { exSettings with maxCollateral := 2000000 } ⟨true, true⟩
+      = .reject .tooSoon := by
+  decide +kernel
+
+/-- RHP3 by design validates against the price table the renter pays with: `height` of `rpcRenew3` is
+`pt.HostBlockHeight`, the tip when the table was issued.  If the tip has moved on since (at most for the validity
+of the table), the window is measured from the table's height, not from the tip: -/
+theorem rpcRenew3_pricetable_height_witness :
+    (rpcRenew3 false U64 exExisting exClearing exRenewal 10 1000 { exSettings with maxCollateral := 5000000 } ⟨true, true⟩).isOk = true ∧
+    ("window_start_not_too_soon", false) ∈
+      contractClauses exRenewal 1001 { exSettings with maxCollateral := 5000000 } (7 + baseCost 3 exExisting exRenewal) 1001521 := by
   decide +kernel
 
 end Hostd.Revision
